@@ -25,6 +25,8 @@ Lemma seg_ok {A} s (o : outcome A) a : seg s o = Ok a <-> o = Ok a.
 Proof. apply map_err_ok. Qed.
 Lemma rewrap_ok {A} c (o : outcome A) a : rewrap c o = Ok a <-> o = Ok a.
 Proof. apply map_err_ok. Qed.
+Lemma rewrap_path_ok {A} (o : outcome A) a : rewrap_path o = Ok a <-> o = Ok a.
+Proof. apply map_err_ok. Qed.
 
 Lemma unit_ok (o : outcome unit) u : o = Ok u <-> o = Ok tt.
 Proof. destruct u; tauto. Qed.
